@@ -220,3 +220,16 @@ package ptracer
 //@   callsite return: assert @C08 int(curStatus) != 1 ==> result.Status == curStatus && result.Time == userTime && result.Memory == userMem
 //@   callsite return: assert @C09 finished || int(status) != 1 ==> result.Status == status && result.ExitStatus == exitStatus && result.Error == errStr
 //@   ensures @C12 T.kill_count >= old(T.kill_count) + 1 && T.kill_last_pid == -pgid && T.kill_last_sig == 9
+
+// Trace (the exported entry): ptrace requests are bound to the calling OS thread, so the thread is locked
+// before the launcher runs and stays locked while the trace loop runs; a launcher failure is a Runner Error
+// carrying the launcher's text and nothing is traced; otherwise the verdict is exactly what trace computed.
+//@ func iface:ptracer.Runner.Start
+//@   assumed "the launcher (forkexec.Runner.Start in both runners): pid of the stopped child, or an error"
+//@   pure
+//@ func ptracer.(*Tracer).Trace props C03 C09 C15
+//@   arith bv
+//@   requires t != nil && t.Handler != nil && t.Runner != nil
+//@   ensures @C09 @C15 int(result.Status) == 8 ==> len(result.Error) > 0
+//@   callsite Start: assert @C03 TH.locked
+//@   callsite (*Tracer).trace: assert @C03 TH.locked && pgid == caller_pgid
